@@ -1,4 +1,5 @@
 mod c05;
+mod c11;
 mod c15;
 mod probe;
 mod rng;
@@ -15,6 +16,7 @@ fn main() {
     match argv[1].as_str() {
         "c05" => c05::main(&args),
         "c15" => c15::main(&args),
+        "c11" => c11::main(&args),
         "probe" => probe::main(&args),
         other => {
             eprintln!("unknown subcommand {}", other);
